@@ -9,6 +9,7 @@ import (
 	"path/filepath"
 	"runtime"
 	"sort"
+	"strconv"
 	"strings"
 	"time"
 
@@ -236,6 +237,10 @@ func cmdCheck(args []string) int {
 			if ts.MaxAlloc != 0 {
 				hs.MaxAlloc = ts.MaxAlloc
 			}
+		}
+		// development aid: cap every harness' time budget (a capped run that does not finish is inconclusive)
+		if c, err := strconv.Atoi(os.Getenv("GOSMT_CAP_S")); err == nil && c > 0 && (hs.TimeoutS == 0 || hs.TimeoutS > c) {
+			hs.TimeoutS = c
 		}
 		sp := byPath[hs.Pkg]
 		if sp == nil {
